@@ -105,6 +105,19 @@ def run_case(case):
     """Returns {'setup': outcome, 'calls': [outcome...], 'args_after': [...]}.
     An outcome is {'status':'ok','value':...} | {'status':'rtamt'} | {'status':'crash','kind':...}."""
     out = {'setup': None, 'calls': []}
+    if case['monitor'] == 'dense-merge':
+        # the 13-case merge called directly: intersection(a, b, method)
+        import rtamt.semantics.stl.dense_time.offline.intersection as isect
+        method = {'and': isect.conjunction, 'or': isect.disjunction, 'sub': isect.subtraction, 'add': isect.addition}[case['op']]
+        out['setup'] = {'status': 'ok', 'value': None}
+        try:
+            a = [list(x) for x in case['a']]
+            b = [list(x) for x in case['b']]
+            res = isect.intersection(a, b, method)
+            out['calls'].append({'status': 'ok', 'value': canon_val(res[0])})
+        except Exception as exc:  # noqa
+            out['calls'].append(classify(exc))
+        return out
     try:
         spec = make_spec(case)
         if case.get('unit'):
